@@ -449,7 +449,7 @@ def run_(c):
         tab = None
         c.broken.append("proof obligation: translator cannot read src/integrator_whfast.c: %s" % ex)
     # ---------------------------------------------------------------- proofs
-    ok = c.prove(["RV.Props.C03"])
+    ok = c.prove(["RV.Props.C03", "RV.Props.C03Tan"])
     try:
         exe = lean_exe("drv_c03")
     except Infra as ex:
